@@ -46,7 +46,12 @@ func init() {
 		return tuple{v, ok}
 	}
 	natives["github.com/go-viper/mapstructure/v2.Decode"] = func(fr *frame, a []value) value {
-		return fr.i.mapstructureDecode(fr, a[0].(iface), a[1].(iface))
+		src, ok := a[0].(iface)
+		if !ok {
+			// one member of a symbolic document, as handed out by a range over the raw map
+			src = iface{t: a[1].(iface).t, v: a[0]}
+		}
+		return fr.i.mapstructureDecode(fr, src, a[1].(iface))
 	}
 
 	reg0 := func(name string, f natfn) { natives[zz(name)] = f }
@@ -611,6 +616,19 @@ func sameVal(a, b value) bool {
 // remaining (extra) members are decoded into m with mapstructure's non-weak rules.
 func (i *interpreter) mapstructureDecode(fr *frame, src, dst iface) value {
 	x := i.x
+	if dv, isDoc := src.v.(docVal); isDoc {
+		// a single member decoded into a typed value
+		pt, ok := dst.t.Underlying().(*types.Pointer)
+		if !ok {
+			return i.mkError("mapstructure: result must be a pointer")
+		}
+		v, errv := i.mapstructureValue(dv.n, pt.Elem())
+		if errv != nil {
+			return errv
+		}
+		*dst.v.(*value) = v
+		return iface{}
+	}
 	dm, ok := src.v.(*docMap)
 	if !ok {
 		if mapIsNil(src.v) {
